@@ -33,7 +33,9 @@ VARIABLES design,      \* the abstract design (see PickAPI / PickSvc / Pick* for
           doc3, doc2,  \* sets of Op
           verdicts,    \* [valid3, valid2, jy3, jy2, facts3, facts2]
           xflag        \* part 2: "none" | "null" (the body carries an explicit null for attribute 1) | "omit" (a raw request
-                       \* that leaves attribute 1 out although it is required)
+                       \* that leaves attribute 1 out although it is required) | "rd" (attribute 1 is Required AND has a Default
+                       \* in the design - a fourth mode; cfg.pa keeps mode "required", which is what the design says about
+                       \* omission) | "rd+omit" (such an attribute, left out by a raw request)
 ovars == <<design, opc, mounts, srvOps, doc3, doc2, verdicts>>
 hvars == <<vars, xflag>>     \* the exchange (HTTPTransport's variables and xflag)
 
@@ -334,6 +336,8 @@ XDeviations == {
   "schema.bytes_length_on_encoded_text",   \* length bounds of Bytes are applied to the base64 text
   "schema.response_cookie_value_schema",   \* a response cookie is documented as a Set-Cookie header with the schema of the cookie VALUE
   "schema.error_response_media_type",      \* declared errors are documented as application/vnd.goa.error, sent as application/json
+  "schema.required_with_default_not_required",   \* a header / cookie parameter that is Required and has a Default is documented as
+                                           \* not required (IsRequiredNoDefault); the server answers 400 missing_field when it is left out
   "schema.dedup_ignores_validations" }     \* components.schemas: a body type is replaced by a structurally equal type of another method,
                                            \* whatever the validations of the two (a defect of the whole design: seen from one exchange the
                                            \* rules applied to a body are then somebody else's)
@@ -370,9 +374,12 @@ SchemaValueOK(a, c) ==
   IF EmptyParam(a, c) /\ Dev("schema.empty_value_allowed") THEN {TRUE}
   ELSE IF Blurred(a, c) THEN BOOLEAN
   ELSE {SchemaTypeOK(a, c) /\ (LeafChecked(a, c) /\ RuleDocumented(a) /\ ~Malformed(c) => RuleOK(a, c))}
+RDFlags == {"rd", "rd+omit"}
+OmitFlags == {"omit", "rd+omit"}
+RDLocs == {"header", "cookie"}           \* where the documents use IsRequiredNoDefault
 SchemaAttrOK(a, w, flag) ==
   IF flag = "null" THEN {a.mode # "required" /\ ~Dev("schema.optional_not_nullable")}
-  ELSE IF w.loc = "none" THEN {a.mode # "required"}
+  ELSE IF w.loc = "none" THEN {a.mode # "required" \/ (flag \in RDFlags /\ a.loc \in RDLocs /\ Dev("schema.required_with_default_not_required"))}
   ELSE SchemaValueOK(a, Seen(a, w))
 \* the set of verdicts the schema may give on the request (a singleton unless a blurring deviation applies)
 SchemaReqVerdicts ==
@@ -401,10 +408,13 @@ XAttrs == XAttrsAll
 Idle == /\ pc = "encode" /\ wire = <<>> /\ delivered = <<>> /\ invoked = FALSE /\ status = 0 /\ errname = "none"
         /\ rwire = <<>> /\ returned = <<>> /\ cerr = "none"
 XInit ==
-  /\ \E a \in XAttrs : \E v \in PayloadVals(a) \cup MalVals(a) \cup {Absent}, fl \in {"none", "null", "omit"} :
+  /\ \E a \in XAttrs : \E v \in PayloadVals(a) \cup MalVals(a) \cup {Absent}, fl \in {"none", "null", "omit", "rd", "rd+omit"} :
        /\ (fl = "none" => v \in PayloadVals(a) \cup MalVals(a))
        /\ (fl = "null" => v = Absent /\ a.loc = "body" /\ a.nest = "direct" /\ CanBeAbsent(a))
        /\ (fl = "omit" => v = Absent /\ a.mode = "required" /\ a.loc # "path" /\ a.nest \in {"direct", "alias", "nested"} /\ a.rule = "none")
+       \* Required + Default: a plain attribute that can carry a default, outside the path
+       /\ (fl \in RDFlags => a.mode = "required" /\ a.loc # "path" /\ a.nest = "direct" /\ a.rule = "none" /\ DefaultOf(a) # Absent)
+       /\ (fl = "rd" => v \in PayloadVals(a) /\ v # Absent /\ ~IsZero(v)) /\ (fl = "rd+omit" => v = Absent)
        /\ cfg = [pa |-> <<a>>, ra |-> <<FixedAttr>>, tagged |-> FALSE, devs |-> Deviations] /\ pv = <<v>> /\ xflag = fl
   /\ rv = <<FixedVal>> /\ Idle
 \* response family: one result attribute (as HTTPTransport's PickR / PickDone choose it)
@@ -422,7 +432,7 @@ XSpec == (IF NPA = 1 /\ NRA = 1 THEN (IF Family = "req" THEN XInit ELSE XInitRes
 \* C14
 Answered == pc \in {"cswitch", "cdecode", "cvalidate", "done"}          \* the server has answered
 SchemaAgreesWithServer == Answered /\ wire # <<>> => \A so \in SchemaReqVerdicts : so = invoked
-SchemaAgreesWithDesign == Answered /\ wire # <<>> /\ xflag = "none" /\ (\A i \in PIdx : ~Malformed(pv[i])) =>
+SchemaAgreesWithDesign == Answered /\ wire # <<>> /\ xflag \in {"none", "rd"} /\ (\A i \in PIdx : ~Malformed(pv[i])) =>
                             \A so \in SchemaReqVerdicts : (Satisfies(cfg.pa, pv) => so) /\ (Violates(cfg.pa, pv) => ~so)
 ProducedResponseConforms == Answered /\ invoked /\ status \in {200, 201} /\ Satisfies(cfg.ra, rv) => \A sr \in SchemaRespVerdicts : sr
 
